@@ -138,15 +138,14 @@ def check(ctx: Ctx) -> None:
                 tg = isinstance(c.func, ast.Name) and c.func.id == "put" or callee_attr(c) == "_send"
                 if not tg or not c.args:
                     continue
+                from ..util import expand, guard_facts
                 code = repo.fold_in(c.args[0], fcl)
-                f = Facts(repo, fcl, {})
-                for (t, lab) in cfg.guards(nd.id):
-                    if t.kind == "test":
-                        f.assume(t.ast, lab == "true")
-                en = f.get("error is None")
+                f = guard_facts(repo, fcl, cfg, nd.id)
+                en = f.value_src("error is None")
                 ob.site(fcl, c, f"close(): frame code {code} under error-is-None={en}")
+                pl = expand(repo, fcl, c.args[2]) if len(c.args) > 2 else None
                 if code == consts["CHANNEL_CLOSE_ERROR"]:
-                    if en is not False or len(c.args) < 3 or not (isinstance(c.args[2], ast.Call) and callee_attr(c.args[2]) == "dumps_internal" and unparse(c.args[2].args[0]) == "error") \
+                    if en is not False or not (isinstance(pl, ast.Call) and callee_attr(pl) == "dumps_internal" and unparse(pl.args[0]) == "error") \
                             or unparse(c.args[1]) != "self.id":
                         ob.violation(fcl, c, "CHANNEL_CLOSE_ERROR is not sent exactly when an error is given, with the error as payload on the channel's own id")
                 elif code == consts["CHANNEL_CLOSE"]:
@@ -208,7 +207,8 @@ def check(ctx: Ctx) -> None:
                 for (t, lab) in cfg.guards(nd.id):
                     if t.kind == "test":
                         f.assume(t.ast, lab == "true")
-                ok = f.get("x is ENDMARKER") is True
+                got = [unparse(n.targets[0]) for n in repo.own_nodes(fr) if isinstance(n, ast.Assign) and isinstance(n.value, ast.Call) and callee_attr(n.value) == "get"]
+                ok = any(f.get(f"{g} is ENDMARKER") is True for g in got)
                 ob.site(fr, nd.ast, "receive() raises the error only when it meets ENDMARKER (after all earlier items)", ok=ok)
                 if not ok:
                     ob.violation(fr, nd.ast, "receive() can raise the stored error before the queued items were delivered")
